@@ -938,3 +938,373 @@ Proof.
   { apply Hch; [exact Hs|]. intros u Hu Hlu. apply Hfree; [now apply Hbc|exact Hlu]. }
   split; [exact Hin|]. eapply conflict_first_wins_l; eauto.
 Qed.
+
+(* ------------------------------------------------------------------ *)
+(* 7. what was wrong before the fix of F19                             *)
+(* ------------------------------------------------------------------ *)
+
+Definition f19_A := mkP 1 (Some 300) 100 [1; 2] true true.
+Definition f19_B := mkP 2 (Some 200) 100 [2; 3] true true.
+Definition f19_C := mkP 3 (Some 100) 100 [3; 4] true true.
+
+(* with the pairwise loop as it was, the conflict chain A-B-C gives the block
+   [A]: C is a candidate, is left out, and conflicts with nothing in the block *)
+Lemma conflict_choice_f19_refuted_l :
+  exists mb pool b c t,
+    wf_pool_b pool = true /\ create_block_f19 mb pool = Val (inl b) /\
+    candidates mb pool = Val c /\ In t c /\ ~ In t b /\
+    (forall s, In s b -> shares s t = false).
+Proof.
+  exists 1000, [f19_A; f19_B; f19_C], [f19_A], [f19_A; f19_B; f19_C], f19_C.
+  split; [vm_compute; reflexivity|]. split; [vm_compute; reflexivity|].
+  split; [vm_compute; reflexivity|]. split; [cbn; tauto|]. split.
+  - intros [H|[]]. discriminate H.
+  - intros s [<-|[]]. vm_compute. reflexivity.
+Qed.
+
+(* the same pool with the loop as it is now *)
+Lemma f19_fixed_example :
+  create_block 1000 [f19_A; f19_B; f19_C] = Val (inl [f19_A; f19_C]).
+Proof. vm_compute. reflexivity. Qed.
+
+(* ------------------------------------------------------------------ *)
+(* 8. determinism and totality                                         *)
+(* ------------------------------------------------------------------ *)
+
+Lemma is_nil_perm {A} (l l' : list A) : Permutation l l' -> is_nil l = is_nil l'.
+Proof.
+  intros HP. destruct l, l'; try reflexivity.
+  - apply Permutation_nil in HP. discriminate.
+  - apply Permutation_sym, Permutation_nil in HP. discriminate.
+Qed.
+
+Lemma wf_pool_perm pool pool' : Permutation pool pool' -> wf_pool pool -> wf_pool pool'.
+Proof.
+  intros HP [H1 H2]. split; [eapply Forall_perm; eassumption|].
+  eapply Permutation_NoDup; [apply Permutation_map, HP|exact H2].
+Qed.
+
+Lemma stageS_perm pool pool' : Permutation pool pool' -> wf_pool pool -> stageS pool = stageS pool'.
+Proof.
+  intros HP Hwf. pose proof (wf_pool_perm _ _ HP Hwf) as Hwf'.
+  destruct (stageS_props pool' Hwf') as [Hs' _].
+  unfold stageS at 1. apply tisort_unique.
+  - apply nodup_map_filter, nodup_map_filter, Hwf.
+  - unfold stageS, stageF. eapply perm_trans; [|apply Permutation_sym, tisort_perm].
+    now apply perm_filter, perm_filter.
+  - exact Hs'.
+Qed.
+
+(* the block depends only on the SET of pooled transactions, not on the order
+   in which the pool lists them nor on the sorting algorithm *)
+Lemma create_deterministic_l mb pool pool' : Permutation pool pool' -> wf_pool pool ->
+  create_block mb pool = create_block mb pool'.
+Proof.
+  intros HP Hwf. pose proof (wf_pool_perm _ _ HP Hwf) as Hwf'.
+  rewrite !create_block_closed by assumption.
+  rewrite (is_nil_perm _ _ HP).
+  rewrite (is_nil_perm (stageF pool) (stageF pool')) by (now apply perm_filter).
+  unfold stageB, stageC, stageT. now rewrite (stageS_perm _ _ HP Hwf).
+Qed.
+
+(* under the configuration invariant checked by visor.Config.Verify
+   (MaxBlockTransactionsSize >= CreateBlockVerifyTxn.MaxTransactionSize, so every
+   creation-valid transaction fits a block) block creation never panics *)
+Lemma create_no_panic_l mb pool : wf_pool pool ->
+  (forall t, In t pool -> pok_create t = true -> has_fee t = true /\ psize t <= mb) ->
+  create_block mb pool <> Panic.
+Proof.
+  intros Hwf Hfit. rewrite create_block_closed by exact Hwf.
+  destruct (is_nil pool); [discriminate|].
+  destruct (is_nil (stageF pool)) eqn:EF; [discriminate|].
+  destruct (stageS_props pool Hwf) as [_ [HwS [_ HiS]]].
+  assert (HT : is_nil (stageT mb pool) = false).
+  { destruct (stageF pool) as [|f0 F'] eqn:EF'; [discriminate|].
+    assert (Hin : In f0 (stageS pool)).
+    { apply HiS. assert (Hf : In f0 (stageF pool)) by (rewrite EF'; now left).
+      unfold stageF in Hf. apply filter_In in Hf. destruct Hf as [Hf Hc].
+      split; [exact Hf|]. split; [exact Hc|]. now apply Hfit. }
+    unfold stageT. destruct (stageS pool) as [|t0 S']; [destruct Hin|].
+    destruct (proj1 (HiS t0) (or_introl eq_refl)) as [Hp [Hc _]].
+    destruct (Hfit t0 Hp Hc) as [_ Hsz].
+    apply Forall_inv in HwS. destruct HwS as [Hs0 _].
+    cbn [cut]. replace ((0 + psize t0 <? 2 ^ 32) && (0 + psize t0 <=? mb)) with true by lia.
+    reflexivity. }
+  rewrite HT. destruct (is_nil (stageB mb pool)); [discriminate|].
+  destruct (stageB_props mb pool Hwf) as [_ [HwB _]].
+  pose proof (fees_total_nopanic (stageB mb pool) 0 HwB) as Hnp.
+  destruct (fees_total 0 (stageB mb pool)) as [|[tot|]]; try discriminate.
+  exfalso. apply Hnp; [unfold in_u; lia|reflexivity].
+Qed.
+
+(* ------------------------------------------------------------------ *)
+(* 9. the model's block satisfies the decidable specification that the *)
+(*    check evaluates on the implementation's block (block_spec_b)     *)
+(* ------------------------------------------------------------------ *)
+
+Lemma split_pos {A} (a1 : list A) : forall l t a2 b1 b2,
+  l = a1 ++ t :: a2 -> l = b1 ++ b2 ->
+  (exists m, b1 = a1 ++ t :: m /\ a2 = m ++ b2) \/
+  (exists m, a1 = b1 ++ m /\ b2 = m ++ t :: a2).
+Proof.
+  induction a1 as [|x a1 IH]; intros l t a2 b1 b2 E1 E2.
+  - cbn [app] in E1. destruct b1 as [|y b1]; cbn [app] in E2.
+    + right. exists []. split; [reflexivity|]. cbn [app]. congruence.
+    + left. subst l. injection E2 as <- ->. exists b1. split; reflexivity.
+  - cbn [app] in E1. destruct b1 as [|y b1]; cbn [app] in E2.
+    + right. exists (x :: a1). split; [reflexivity|]. cbn [app]. congruence.
+    + subst l. injection E2 as <- E2.
+      destruct (IH _ t a2 b1 b2 eq_refl E2) as [[m [H1 H2]]|[m [H1 H2]]].
+      * left. exists m. split; [cbn [app]; now rewrite H1|exact H2].
+      * right. exists m. split; [cbn [app]; now rewrite H1|exact H2].
+Qed.
+
+Lemma sorted_b_spec l : StronglySorted txn_lt l -> sorted_b l = true.
+Proof.
+  induction 1 as [|a l Hs IH Ha]; [reflexivity|]. cbn [sorted_b]. rewrite IH, Bool.andb_true_r.
+  apply forallb_forall. rewrite Forall_forall in Ha. exact Ha.
+Qed.
+
+Lemma follower_accepts_inv b : follower_accepts b = true ->
+  b <> [] /\ forallb pok_block b = true /\ nodup_z (map ph b) = true /\ pairwise_disjoint b = true.
+Proof.
+  unfold follower_accepts. destruct b as [|b0 b']; [discriminate|]. intros H.
+  apply Bool.andb_true_iff in H. destruct H as [H H3].
+  apply Bool.andb_true_iff in H. destruct H as [H1 H2].
+  repeat split; try assumption. discriminate.
+Qed.
+
+Section Spec.
+  Variable mb : Z.
+  Variable pool : list ptxn.
+  Hypothesis Hwf : wf_pool pool.
+  (* a transaction that passes the creation filter has a computable fee: the
+     filter's soft check computes the fee with the same function *)
+  Hypothesis Hfee : forall t, In t pool -> pok_create t = true -> has_fee t = true.
+  Hypothesis Hmb : mb < 2 ^ 32.
+
+  Lemma stageS_perm_F : Permutation (stageS pool) (stageF pool).
+  Proof.
+    unfold stageS. rewrite filter_id; [apply tisort_perm|].
+    intros t Ht. unfold stageF in Ht. apply filter_In in Ht. now apply Hfee.
+  Qed.
+
+  Lemma prefix_of_split t S1 S2 : stageS pool = S1 ++ t :: S2 ->
+    sum_sizes (prefix_of pool t) = sum_sizes S1 + psize t /\
+    List.length (prefix_of pool t) = S (List.length S1).
+  Proof.
+    intros E. destruct (stageS_props pool Hwf) as [Hs [_ [Hnd _]]].
+    assert (HP : Permutation (prefix_of pool t) (S1 ++ [t])).
+    { unfold prefix_of. rewrite <- filter_filter. fold (stageF pool).
+      eapply perm_trans; [apply perm_filter, Permutation_sym, stageS_perm_F|].
+      rewrite E, filter_app. cbn [filter]. unfold upto at 2. rewrite Z.eqb_refl. cbn [orb].
+      rewrite E in Hs, Hnd.
+      rewrite filter_id.
+      - replace (filter (upto t) S2) with (@nil ptxn); [apply Permutation_refl|].
+        symmetry.
+        assert (H2 : forall u, In u S2 -> upto t u = false).
+        { intros u Hu. unfold upto.
+          assert (Hlt : txn_ltb t u = true).
+          { apply (sorted_app_lt (S1 ++ [t]) S2); [now rewrite <- app_assoc|apply in_or_app; right; now left|exact Hu]. }
+          rewrite (txn_ltb_asym _ _ Hlt), Bool.orb_false_r.
+          apply Z.eqb_neq. intros Eph. rewrite map_app in Hnd. cbn [map] in Hnd.
+          apply NoDup_remove_2 in Hnd. apply Hnd. apply in_or_app. right. rewrite <- Eph. now apply in_map. }
+        clear - H2. induction S2 as [|u S2 IH]; [reflexivity|]. cbn [filter].
+        rewrite (H2 u) by now left. apply IH. intros v Hv. apply H2. now right.
+      - intros u Hu. unfold upto.
+        rewrite (sorted_app_lt S1 (t :: S2) u t Hs Hu) by now left. apply Bool.orb_true_r. }
+    split.
+    - rewrite (perm_sum_sizes _ _ HP), sum_sizes_app. cbn. lia.
+    - rewrite (Permutation_length HP), app_length. cbn. lia.
+  Qed.
+
+  Lemma stageT_nonneg : stageT mb pool <> [] -> 0 <= mb.
+  Proof.
+    intros H. destruct (Z_lt_le_dec mb 0) as [Hneg|]; [|assumption]. exfalso. apply H.
+    unfold stageT. destruct (stageS_props pool Hwf) as [_ [HwS _]].
+    rewrite cut_neg by (auto; lia). reflexivity.
+  Qed.
+
+  Lemma in_cut_iff t : In t (stageS pool) -> (in_cut mb pool t = true <-> In t (stageT mb pool)).
+  Proof.
+    intros Ht. destruct (stageS_props pool Hwf) as [Hs [HwS _]].
+    destruct (stageT_prefix mb pool) as [R ER]. split.
+    - intros Hc. apply in_split in Ht. destruct Ht as [S1 [S2 E]].
+      destruct (prefix_of_split t S1 S2 E) as [Hsum Hlen].
+      unfold in_cut in Hc. rewrite Hsum, Hlen in Hc.
+      destruct (split_pos S1 _ t S2 (stageT mb pool) R E ER) as [[m [H1 _]]|[m [H1 H2]]].
+      { rewrite H1. apply in_or_app. right. now left. }
+      exfalso.
+      (* t lies after the cut *)
+      unfold stageT in *.
+      destruct (cut_prefix mb (stageS pool) 0) as [r1 E1].
+      destruct (take_z_prefix (cut mb 0 (stageS pool)) MaxBlockTransactions) as [r2 E2].
+      set (T := take_z MaxBlockTransactions (cut mb 0 (stageS pool))) in *.
+      assert (HwS1 : Forall wf_txn S1) by (rewrite E in HwS; eapply Forall_app_l; eassumption).
+      assert (Hwm : Forall wf_txn m).
+      { rewrite H1 in HwS1. rewrite Forall_forall in *. intros x Hx. apply HwS1, in_or_app. now right. }
+      destruct r2 as [|x r2].
+      + (* the size cut: the first transaction after T does not fit *)
+        rewrite app_nil_r in E2.
+        assert (ER' : R = r1).
+        { rewrite E2 in E1. rewrite ER in E1 at 1. now apply app_inv_head in E1. }
+        rewrite H1, sum_sizes_app in Hc.
+        pose proof (sum_sizes_nonneg _ Hwm) as Hm0.
+        destruct m as [|u m'].
+        * cbn [app] in H2. rewrite ER' in H2. rewrite H2 in E1.
+          pose proof (cut_maximal mb (stageS pool) 0 t S2 Hmb E1) as Hmax.
+          rewrite E2 in Hmax. cbn [sum_sizes fold_right] in Hc. lia.
+        * cbn [app] in H2. rewrite ER' in H2. rewrite H2 in E1.
+          pose proof (cut_maximal mb (stageS pool) 0 u (m' ++ t :: S2) Hmb E1) as Hmax.
+          rewrite E2 in Hmax. rewrite sum_sizes_cons in Hc, Hm0.
+          apply Forall_inv_tail in Hwm. pose proof (sum_sizes_nonneg _ Hwm).
+          assert (0 < psize t) by (rewrite E in HwS; apply Forall_app in HwS; destruct HwS as [_ HwS];
+                                   apply Forall_inv in HwS; apply HwS).
+          lia.
+      + (* the count cut *)
+        pose proof (take_z_full (cut mb 0 (stageS pool)) MaxBlockTransactions x r2) as Hfull.
+        fold T in Hfull. specialize (Hfull ltac:(unfold MaxBlockTransactions; lia) E2).
+        rewrite H1, app_length in Hc. lia.
+    - intros HT. apply in_split in HT. destruct HT as [T1 [T2 ET]].
+      assert (E : stageS pool = T1 ++ t :: (T2 ++ R)).
+      { rewrite ER, ET, <- app_assoc. reflexivity. }
+      destruct (prefix_of_split t T1 (T2 ++ R) E) as [Hsum Hlen].
+      destruct (stageT_size mb pool Hwf) as [Hsz Hln].
+      assert (Hne : stageT mb pool <> []) by (rewrite ET; destruct T1; discriminate).
+      pose proof (stageT_nonneg Hne) as Hmb0.
+      destruct (stageT_props mb pool Hwf) as [_ [HwT _]].
+      rewrite ET in Hsz, Hln, HwT. rewrite sum_sizes_app, sum_sizes_cons in Hsz.
+      rewrite app_length in Hln. cbn [List.length] in Hln.
+      assert (HwT2 : Forall wf_txn T2).
+      { rewrite Forall_forall in *. intros x Hx. apply HwT, in_or_app. right. now right. }
+      pose proof (sum_sizes_nonneg _ HwT2).
+      unfold in_cut. rewrite Hsum, Hlen. lia.
+  Qed.
+
+  Lemma create_meets_spec_l b : create_block mb pool = Val (inl b) ->
+    block_spec_b mb pool b = true.
+  Proof.
+    intros H. pose proof (created_size_l _ _ _ Hwf H) as [Hsz Hln].
+    pose proof (created_accepted_l _ _ _ Hwf H) as Hacc.
+    pose proof (created_sorted_l _ _ _ Hwf H) as Hsorted.
+    destruct (conflict_choice_l _ _ _ Hwf H) as [c [Hc [Hbc Hch]]].
+    pose proof (create_block_ret _ _ _ Hwf H) as [Eb Hne].
+    destruct (stageS_props pool Hwf) as [_ [_ [_ HiS]]].
+    destruct (stageT_props mb pool Hwf) as [_ [_ [_ HiT]]].
+    assert (Hcs : c = stageC mb pool).
+    { rewrite candidates_spec in Hc by exact Hwf. now injection Hc. }
+    apply follower_accepts_inv in Hacc. destruct Hacc as [_ [Hokb [Hnd Hdis]]].
+    assert (A1 : forallb (fun t => pok_create t && pok_block t) b = true).
+    { apply forallb_forall. intros t Ht.
+      destruct (created_all_valid_l _ _ _ Hwf H t Ht) as [H1 [H2 _]]. now rewrite H1, H2. }
+    assert (A3 : sorted_b b = true) by now apply sorted_b_spec.
+    assert (A4 : (sum_sizes b <=? mb) = true) by lia.
+    assert (A5 : (Z.of_nat (List.length b) <=? MaxBlockTransactions) = true) by lia.
+    assert (A7 : forallb (in_cut mb pool) b = true).
+    { apply forallb_forall. intros t Ht. rewrite Eb in Ht.
+      destruct (in_stageB mb pool t Hwf Ht) as [Hp [Hc1 [_ [Hf HT]]]].
+      apply in_cut_iff; [|exact HT]. apply HiS. tauto. }
+    assert (A8 : forallb (fun t =>
+       negb (pok_create t && pok_block t)
+       || existsb (fun b1 => ph b1 =? ph t) b
+       || negb (in_cut mb pool t)
+       || existsb (fun s => txn_ltb s t && shares s t) b) pool = true).
+    { apply forallb_forall. intros t Ht.
+      destruct (pok_create t && pok_block t) eqn:Ev; [|reflexivity]. cbn [negb orb].
+      apply Bool.andb_true_iff in Ev. destruct Ev as [Ev1 Ev2].
+      destruct (existsb (fun b1 => ph b1 =? ph t) b) eqn:Ein; [reflexivity|]. cbn [orb].
+      destruct (in_cut mb pool t) eqn:Ecut; [|reflexivity]. cbn [negb orb].
+      assert (HtS : In t (stageS pool)) by (apply HiS; split; [exact Ht|split; [exact Ev1|now apply Hfee]]).
+      apply in_cut_iff in Ecut; [|exact HtS].
+      assert (Htc : In t c) by (rewrite Hcs; apply filter_In; tauto).
+      assert (Hnb : ~ In t b).
+      { intros Hin. rewrite existsb_false in Ein. specialize (Ein t Hin). lia. }
+      destruct (conflict_loser_l mb pool b c t Hwf H Hc Htc Hnb) as [s [Hs [Hlt Hsh]]].
+      apply existsb_exists. exists s. split; [exact Hs|]. unfold txn_lt in Hlt. now rewrite Hlt, Hsh. }
+    unfold block_spec_b. rewrite A1, Hnd, A3, A4, A5, Hdis, A7, A8. reflexivity.
+  Qed.
+End Spec.
+
+(* ------------------------------------------------------------------ *)
+(* 10. the statements of Properties/C05.v (hypotheses in the boolean   *)
+(*     form that the check evaluates on every generated pool)          *)
+(* ------------------------------------------------------------------ *)
+
+Lemma has_fee_iff t : has_fee t = true <-> pfee t <> None.
+Proof. unfold has_fee. destruct (pfee t); split; congruence. Qed.
+
+Section Final.
+  Variables (mb : Z) (pool b : list ptxn).
+  Hypothesis Hwf : wf_pool_b pool = true.
+  Hypothesis Hcreate : create_block mb pool = Val (inl b).
+  Let Hwf' : wf_pool pool := proj1 (wf_pool_b_spec pool) Hwf.
+
+  Lemma created_from_pool : forall t, In t b -> In t pool.
+  Proof. exact (created_from_pool_l mb pool b Hwf' Hcreate). Qed.
+  Lemma created_all_valid : forall t, In t b ->
+    pok_create t = true /\ pok_block t = true /\ pfee t <> None.
+  Proof. exact (created_all_valid_l mb pool b Hwf' Hcreate). Qed.
+  Lemma created_sorted : StronglySorted txn_lt b.
+  Proof. exact (created_sorted_l mb pool b Hwf' Hcreate). Qed.
+  Lemma created_size : sum_sizes b <= mb /\ Z.of_nat (List.length b) <= MaxBlockTransactions.
+  Proof. exact (created_size_l mb pool b Hwf' Hcreate). Qed.
+  Lemma created_accepted : follower_accepts b = true.
+  Proof. exact (created_accepted_l mb pool b Hwf' Hcreate). Qed.
+  Lemma conflict_choice : exists c, candidates mb pool = Val c /\
+    (forall t, In t b -> In t c) /\
+    (forall t, In t c -> (In t b <-> forall s, In s b -> txn_lt s t -> shares s t = false)).
+  Proof. exact (conflict_choice_l mb pool b Hwf' Hcreate). Qed.
+  Lemma conflict_loser : forall c t, candidates mb pool = Val c -> In t c -> ~ In t b ->
+    exists s, In s b /\ txn_lt s t /\ shares s t = true.
+  Proof. intros c t. exact (conflict_loser_l mb pool b c t Hwf' Hcreate). Qed.
+  Lemma conflict_first_wins : forall c s t, candidates mb pool = Val c -> In t c -> In s b ->
+    txn_lt s t -> shares s t = true -> ~ In t b.
+  Proof. intros c s t. exact (conflict_first_wins_l mb pool b c s t Hwf' Hcreate). Qed.
+  Lemma conflict_at_most_one : forall s t, s <> t -> shares s t = true -> ~ (In s b /\ In t b).
+  Proof. intros s t. exact (conflict_at_most_one_l mb pool b s t Hwf' Hcreate). Qed.
+  Lemma conflict_exactly_first : forall c s t, candidates mb pool = Val c -> In s c -> In t c ->
+    txn_lt s t -> shares s t = true ->
+    (forall u, In u c -> txn_lt u s -> shares u s = false) ->
+    In s b /\ ~ In t b.
+  Proof. intros c s t. exact (conflict_exactly_first_l mb pool b c s t Hwf' Hcreate). Qed.
+  Lemma create_meets_spec :
+    (forall t, In t pool -> pok_create t = true -> pfee t <> None) -> mb < 2 ^ 32 ->
+    block_spec_b mb pool b = true.
+  Proof.
+    intros Hfee Hmb. apply create_meets_spec_l; try assumption.
+    intros t Ht Hc. apply has_fee_iff. now apply Hfee.
+  Qed.
+End Final.
+
+Lemma create_deterministic mb pool pool' : wf_pool_b pool = true -> Permutation pool pool' ->
+  create_block mb pool = create_block mb pool'.
+Proof. intros Hwf HP. apply create_deterministic_l; [exact HP|now apply wf_pool_b_spec]. Qed.
+
+Lemma create_no_panic mb pool : wf_pool_b pool = true ->
+  (forall t, In t pool -> pok_create t = true -> pfee t <> None /\ psize t <= mb) ->
+  create_block mb pool <> Panic.
+Proof.
+  intros Hwf H. apply create_no_panic_l; [now apply wf_pool_b_spec|].
+  intros t Ht Hc. destruct (H t Ht Hc). split; [now apply has_fee_iff|assumption].
+Qed.
+
+Lemma order_strict_total :
+  (forall a, ~ txn_lt a a) /\
+  (forall a b c, txn_lt a b -> txn_lt b c -> txn_lt a c) /\
+  (forall a b, ph a <> ph b -> txn_lt a b \/ txn_lt b a).
+Proof.
+  unfold txn_lt. split; [|split].
+  - intros a. rewrite txn_ltb_irrefl. discriminate.
+  - exact txn_ltb_trans.
+  - exact txn_ltb_total.
+Qed.
+
+(* the model's sort (insertion sort on (fee/kB, txn) entries, fee/kB computed by
+   the regenerated MultUint64 with saturation) returns THE sorted permutation *)
+Lemma sort_txns_correct l l' : wf_pool_b l = true -> (forall t, In t l -> pfee t <> None) ->
+  Permutation l l' -> StronglySorted txn_lt l' -> sort_txns l = Val l'.
+Proof.
+  intros Hwf Hf HP Hs. apply wf_pool_b_spec in Hwf. destruct Hwf as [Hw Hnd].
+  rewrite sort_txns_spec by exact Hw. rewrite filter_id by (intros t Ht; apply has_fee_iff; now apply Hf).
+  f_equal. now apply tisort_unique.
+Qed.
